@@ -11,6 +11,7 @@ GOTO to a missing line, RETURN without GOSUB, READ beyond the data, subscript be
 run fail with an error (RunString != 0, error text non-blank); under ASan/UBSan no report, no abort, no hang.  Text-level token mutations (deletion, duplication,
 swap, truncation) add a crash-only oracle.
 """
+import hashlib
 import math
 import os
 import re
@@ -93,7 +94,8 @@ def c_long(x):
 class Ref:
     """reference interpreter over the flat program: lines = [(number, [stmt, ...])]"""
 
-    def __init__(self, lines, mod_fudge=False, step_limit=20000):
+    def __init__(self, lines, mod_fudge=False, step_limit=20000, ulp_bias=0):
+        self.bias = 1.0 + ulp_bias * 2.220446049250313e-16      # conditioning probe: every transcendental result is moved by ulp_bias units in the last place
         self.lines = lines
         self.index = {n: i for i, (n, _) in enumerate(lines)}
         self.vars, self.arrs, self.store, self.sstore = {}, {}, {}, {}
@@ -107,6 +109,27 @@ class Ref:
                 if s[0] == "data":
                     self.data.append((li, s[1]))
         self.dptr = (0, 0)
+        # PUT keys of the program (literal subscripts): reading one of them before it was written in this run would make the result depend on how often the host
+        # has run the program before (the store outlives a run), so such programs are not used
+        self.static_put = set()
+
+        def walk(sts):
+            for s in sts:
+                if s[0] == "put":
+                    try:
+                        self.static_put.add((s[1][0],) + tuple(int(float(a[1])) for a in s[2] if a[0] == "num"))
+                    except ValueError:
+                        pass
+                elif s[0] == "if":
+                    for b in (s[2], s[3]):
+                        if isinstance(b, list):
+                            walk(b)
+        for _, st in lines:
+            walk(st)
+
+    def store_read(self, kind, key):
+        if (kind,) + key in self.static_put and key not in (self.sstore if kind == "s" else self.store):
+            raise BasicError("GET before PUT")
 
     # ---- expressions
     def ev(self, e):
@@ -159,7 +182,7 @@ class Ref:
             return math.copysign(1.0, a) * math.fmod(abs(a) + (1e-14 if self.mod_fudge else 0.0), b)
         if op == "^":
             if a > 0:
-                return math.exp(b * math.log(a))
+                return math.exp(b * math.log(a)) * self.bias
             if a == 0:
                 if b <= 0:
                     raise BasicError("zero to a non-positive power")
@@ -209,16 +232,16 @@ class Ref:
             if n == "exp":
                 if x > 300:
                     raise BasicError("overflow")
-                return math.exp(x)
+                return math.exp(x) * self.bias
             if n in ("log", "log10"):
                 if x <= 0:
                     raise BasicError("log of non-positive")
-                return math.log(x) if n == "log" else math.log10(x)
+                return (math.log(x) if n == "log" else math.log10(x)) * self.bias
             if n == "floor":
                 return float(math.floor(x))
             if n == "ceil":
                 return float(math.ceil(x))
-            return {"sin": math.sin, "cos": math.cos, "tan": math.tan, "arctan": math.atan}[n](x)
+            return {"sin": math.sin, "cos": math.cos, "tan": math.tan, "arctan": math.atan}[n](x) * self.bias
         if n == "len":
             return float(len(self.sval(args[0])))
         if n == "asc":
@@ -270,12 +293,14 @@ class Ref:
             if not (0 <= d <= 17 and 0 <= w <= 40) or abs(x) > 1e30:
                 raise BasicError("format outside the tested range")
             return ("%*.*f" if n == "str_f$" else "%*.*e") % (w, d, x)
-        if n == "get":
-            return self.store.get(tuple(to_long(self.num(a)) for a in args), 0.0)
-        if n == "get$":
-            return self.sstore.get(tuple(to_long(self.num(a)) for a in args), "unknown")
-        if n == "exists":
-            return 1.0 if tuple(to_long(self.num(a)) for a in args) in self.store else 0.0
+        if n in ("get", "get$", "exists"):
+            key = tuple(to_long(self.num(a)) for a in args)
+            self.store_read("s" if n == "get$" else "n", key)
+            if n == "get":
+                return self.store.get(key, 0.0)
+            if n == "get$":
+                return self.sstore.get(key, "unknown")
+            return 1.0 if key in self.store else 0.0
         raise BasicError("function " + name)
 
     # ---- arrays
@@ -563,14 +588,16 @@ def render_stmt(st, host, r, state):
     if k == "end":
         return "END"
     if k == "save":
-        return "SAVE " + render(st[1], 0, r) if host in ("rates", "calc") else "REM save"
+        if host == "rates":
+            return "SAVE 0 * (" + render(st[1], 0, r) + ")"        # the value is a reaction amount for the integrator: keep it zero, deliver through PUT
+        return "SAVE " + render(st[1], 0, r) if host == "calc" else "REM save"
     if k == "deliver":
         if host == "punch":
             return "PUNCH " + ", ".join(render(e, 0, r) for e in st[1])
         if host == "print":
             parts = []
             for e in st[1]:
-                parts.append(('"C17S[" + %s + "]"' % render(e, 5, r)) if is_str(e) else ('"C17N", STR_E$(%s, 25, 16)' % render(e, 0, r)))
+                parts.append(('"C17" + "S[" + %s + "]"' % render(e, 5, r)) if is_str(e) else ('"C17" + "N", STR_E$(%s, 25, 16)' % render(e, 0, r)))      # split markers: the echoed input must not match
             return " : ".join("PRINT " + p for p in parts)
         parts = []
         for e in st[1]:
@@ -605,7 +632,7 @@ def render_program(lines, host, r):
 # ------------------------------------------------------------------------------------------------------------------ generator
 NUMVARS = ["a", "b", "c", "x1", "y_2", "Total", "rate", "k9", "lm1", "si_cal"]
 STRVARS = ["s$", "t$", "name$", "w1$"]
-INTVARS = ["n", "m", "p"]
+INTVARS = ["n", "mq", "p"]
 WORDS = ["calcite", "Na+", "  pad ", "x", "", "SO4-2", "abc def", "Zz", "0.5", "12", " 7 ", "H2O"]
 
 
@@ -631,7 +658,7 @@ class Gen:
         self.r = r
         self.arrays = {}        # name -> dims (list of ints, upper bounds)
         self.lines = []
-        self.ln = 0
+        self.ln = 1             # line 1 stays free for the statement a malformed variant puts in front
         self.depth = 0
         self.subs = []          # (first line number placeholder id, block)
         self.nput = []
@@ -903,6 +930,21 @@ class Gen:
                 self.arrays[name] = [10] * len(dims)        # left to the automatic dimension of 10
         if decl:
             self.add([("dim", decl)])
+        # every scalar starts from a non-trivial value (uninitialised variables are 0 / "", kept for a third of them)
+        init = []
+        for v in NUMVARS:
+            if r.random() < 0.7:
+                init.append(("let", ("var", v), lit(r) if r.random() < 0.8 else ("un", "-", lit(r))))
+        for v in STRVARS:
+            if r.random() < 0.7:
+                init.append(("let", ("var", v), ("str", r.choice(WORDS))))
+        for v in INTVARS:
+            if r.random() < 0.7:
+                k_ = r.randint(0, 5)
+                init.append(("let", ("var", v), ("num", str(k_), float(k_))))
+        r.shuffle(init)
+        for k_ in range(0, len(init), 3):
+            self.add(init[k_:k_ + 3])
         self.block(size)
         self.add([("deliver", [("var", v) for v in r.sample(NUMVARS, 3)] + [("var", r.choice(STRVARS))])])
         self.add([("save", ("var", r.choice(NUMVARS)))])
@@ -1007,6 +1049,27 @@ def make_program(ctx, case):
             continue
         if not out:
             continue
+        # conditioning: the engine's libm may differ from the reference's in the last place of a transcendental result; a program that turns such a
+        # difference into more than 1e-13 relative (cancellation, MOD, a comparison or FLOOR at an edge) cannot be judged at 1e-12 and is not used
+        stable = True
+        for kb in (3, -3):
+            try:
+                rb = Ref(lines, ulp_bias=kb)
+                ob = rb.run()
+            except (BasicError, OverflowError, ValueError, ZeroDivisionError, RecursionError):
+                stable = False
+                break
+            if len(ob) != len(out) or any(a[0] != b[0] for a, b in zip(out, ob)) or not close13(rb.saved, ref.saved):
+                stable = False
+                break
+            for (ta, va), (tb, vb) in zip(out, ob):
+                if (ta == "s" and va != vb) or (ta == "n" and not close13(va, vb)):
+                    stable = False
+                    break
+            if not stable:
+                break
+        if not stable:
+            continue
         # a value that sits at a floor / sign / comparison edge of round-off would make the verdict depend on the last bit: keep the program, the comparison has a tolerance
         return lines, out, ref.saved, attempt
     return None
@@ -1030,6 +1093,10 @@ def host_input(lines, host, r, nout, kinds):
         return (BASE + so + "RATES\n c17rate\n -start\n" + body + " -end\nKINETICS 1\n c17rate\n  -formula NaCl 0\n  -m0 1\n  -m 1\n -steps 1\n -bad_step_max 100\n"
                 "USER_PUNCH 1\n -headings " + heads + "\n -start\n" + reader + " -end\nEND\n")
     return (BASE + so + "CALCULATE_VALUES\n c17cv\n -start\n" + body + " -end\nUSER_PUNCH 1\n -headings cv " + heads + "\n -start\n 10 cvx = CALC_VALUE(\"c17cv\")\n 20 PUNCH cvx\n" + reader + " -end\nEND\n")
+
+
+def close13(a, b):
+    return a == b or abs(a - b) <= 1e-13 * max(abs(a), abs(b))
 
 
 def close(a, b):
@@ -1060,9 +1127,9 @@ def cells_to_values(so, kinds, skip=0):
     out = []
     for k, c in enumerate(row[:len(kinds)]):
         if kinds[k] == "s":
-            out.append(("s", c[1] if c[0] == "s" else repr(c[1])))
+            out.append(("s", (c[1] if c[0] == "s" else repr(c[1])) if len(c) > 1 else "<empty cell>"))
         else:
-            out.append(("n", float(c[1])) if c[0] in "dl" else ("s", c[1]))
+            out.append(("n", float(c[1])) if c[0] in "dl" and len(c) > 1 else ("s", c[1] if len(c) > 1 else "<empty cell>"))
     return out
 
 
@@ -1104,14 +1171,14 @@ def malform(lines, r):
     return kind, newl + lines
 
 
-TEXT_BREAKS = ["drop-then", "unbalanced-paren", "unterminated-string", "unknown-statement", "two-operators", "missing-operand", "bad-number", "stray-else"]
+TEXT_BREAKS = ["drop-then", "unbalanced-paren", "unterminated-string", "unknown-statement", "two-operators", "missing-operand", "bad-number"]
 
 
 def text_break(prog_lines, r):
     kind = r.choice(TEXT_BREAKS)
     lines = list(prog_lines)
     ins = {"drop-then": "IF a > 1 a = 2", "unbalanced-paren": "a = (1 + 2 * (3 - 1)", "unterminated-string": 's$ = "abc', "unknown-statement": "FROBNICATE a, 3", "two-operators": "a = 1 + * 2",
-           "missing-operand": "a = 3 *", "bad-number": "a = ..9", "stray-else": "a = 1 : ELSE : @"}[kind]
+           "missing-operand": "a = 3 *", "bad-number": "a = ..9"}[kind]
     n0 = int(lines[0].split()[0])
     lines.insert(0, "%d %s" % (max(1, n0 - 1), ins))
     return kind, lines
@@ -1163,32 +1230,49 @@ def dialect_retry(lines):
         return None, None
 
 
+def same_out(a, b):
+    if len(a) != len(b):
+        return False
+    for (ta, va), (tb, vb) in zip(a, b):
+        if ta != tb or (ta == "s" and va != vb) or (ta == "n" and not close13(va, vb)):
+            return False
+    return True
+
+
 def run_valid(ctx, case, lines, ref_out, ref_saved, kinds, r):
     cwd = ctx.scratch(case["id"])
     flav = "asan" if case["i"] % 9 == 1 else "opt"
+    # the engine computes a MOD b as fmod(|a| + 1e-14, b) (open known finding).  A program whose standard evaluation does not change under that formula is judged
+    # against the standard reference; one that does change (exact multiples, loop bounds, comparisons fed by MOD) is judged against the evaluation with the
+    # engine's formula - any other deviation is still a violation - and is reported once under the known finding
+    uses_mod = "'mod'" in repr(lines)
+    exp_out, exp_saved, sensitive = ref_out, ref_saved, False
+    if uses_mod:
+        alt_out, alt_saved = dialect_retry(lines)
+        if alt_out is None:
+            return Result(INCONCLUSIVE, reason="the program has a run-time error when MOD is computed the engine's way")
+        if not same_out(alt_out, ref_out) or not close13(alt_saved, ref_saved):
+            exp_out, exp_saved, sensitive = alt_out, alt_saved, True
+    kinds = [t for t, _ in exp_out]
     s = core.Script()
     hosts = ["punch", "print", "rates", "calc"]
-    texts = {}
     for h in hosts:
         rr = ctx.rng("render", case["i"], h)
-        texts[h] = host_input(lines, h, rr, len(ref_out), kinds)
         s.raw("new %s" % h)
         s.raw("loaddb %s %s" % (h, os.path.join(ctx.db, "phreeqc.dat")))
         s.raw("set %s OutputStringOn 1" % h)
-        s.run(h, texts[h])
+        s.run(h, host_input(lines, h, rr, len(exp_out), kinds))
         s.raw("snap %s seow" % h)
     run = core.run_vdrive(ctx.bin(flav), s.bytes(), cwd, timeout=300)
-    san = core.sanitizer_findings(run)
-    if san:
-        return Result(VIOLATED, key="C17/%s" % san[0][0], what="%s: %s" % (case["id"], san[0][1]), sample=dict(id=case["id"], program=render_program(lines, "punch", r)[:40]))
-    if core.process_failure(run):
-        return Result(INCONCLUSIVE, reason="process failure / watchdog")
+    pf = core.process_failure(run)
+    if pf:
+        if pf[0] in ("timeout", "harness"):
+            return Result(INCONCLUSIVE, reason="%s: %s" % (pf[0], (pf[2] or "")[:120]))
+        return Result(VIOLATED, key="C17/%s" % pf[1], what="%s: valid program, process ended abnormally: %s" % (case["id"], (pf[2] or "")[:2000]), sample=dict(id=case["id"], program=render_program(lines, "punch", r)[:60]))
     rr_, sn = core.rets(run, "run"), core.rets(run, "snap")
     if len(rr_) < 4 or len(sn) < 4:
         return Result(INCONCLUSIVE, reason="incomplete record")
     findings, sigs = [], set()
-    alt_out, alt_saved = None, None
-    uses_mod = any("MOD" in l for l in render_program(lines, "punch", None))
     for k, h in enumerate(hosts):
         if rr_[k].get("r") != 0:
             et = " ".join(sn[k]["error"].get("text", "").split())[:160]
@@ -1213,27 +1297,21 @@ def run_valid(ctx, case, lines, ref_out, ref_saved, kinds, r):
                 continue
             if h == "calc":
                 cv = so[0]["cells"][-1][0]
-                if cv[0] not in "dl" or not close(float(cv[1]), ref_saved):
-                    if alt_out is None:
-                        alt_out, alt_saved = dialect_retry(lines)
-                    if not (uses_mod and alt_saved is not None and cv[0] in "dl" and close(float(cv[1]), alt_saved)):
-                        findings.append(("C17/value/save/" + h, "%s: CALC_VALUE returns %r, the reference SAVE value is %r" % (case["id"], cv[1], ref_saved)))
-                    else:
-                        findings.append(("C17/mod-fudge/" + h, "%s: SAVE value differs from the reference only through MOD of an exact multiple" % case["id"]))
-        msg = compare(ref_out, got, h, case["id"])
+                if cv[0] not in "dl" or not close(float(cv[1]), exp_saved):
+                    findings.append(("C17/value/save/" + h, "%s: CALC_VALUE returns %r, the reference SAVE value is %r" % (case["id"], cv[1] if len(cv) > 1 else None, exp_saved)))
+        msg = compare(exp_out, got, h, case["id"])
         if msg:
-            if uses_mod:
-                if alt_out is None:
-                    alt_out, alt_saved = dialect_retry(lines)
-                if alt_out is not None and compare(alt_out, got, h, case["id"]) is None:
-                    findings.append(("C17/mod-fudge/" + h, msg + " (equal to the evaluation with MOD computed as fmod(|a| + 1e-14, b))"))
-                    continue
             findings.append(("C17/value/" + h, msg))
         else:
-            sigs.add("%s|%s" % (h, core.short_hash(repr(ref_out))))
+            sigs.add("%s|%s" % (h, hashlib.sha1(repr(exp_out).encode()).hexdigest()[:10]))
+    if sensitive and not findings:
+        k_ = min(len(ref_out), len(exp_out))
+        d_ = [i for i in range(k_) if ref_out[i] != exp_out[i]]
+        findings.append(("C17/mod-fudge/program", "%s: all four hosts deliver the values of the evaluation with MOD computed as fmod(|a| + 1e-14, b); the standard evaluation differs (%d vs %d values%s)" % (
+            case["id"], len(exp_out), len(ref_out), (", first at value %d: %r vs %r" % (d_[0] + 1, exp_out[d_[0]][1], ref_out[d_[0]][1])) if d_ else "")))
     feats = sorted(set(st[0] for _, sts in lines for st in sts))
-    sample = dict(id=case["id"], lines=len(lines), statements=feats, delivered=len(ref_out), flavour=flav)
-    stats = {"n_programs": 1, "n_values_compared": len(ref_out) * 4, "n_lines": len(lines)}
+    sample = dict(id=case["id"], lines=len(lines), statements=feats, delivered=len(exp_out), flavour=flav, mod_sensitive=sensitive)
+    stats = {"n_programs": 1, "n_values_compared": len(exp_out) * 4, "n_lines": len(lines), "n_mod_sensitive_programs": 1 if sensitive else 0}
     if findings:
         k_, w_ = findings[0]
         sample["program"] = render_program(lines, "punch", ctx.rng("render", case["i"], "punch"))[:60]
@@ -1261,21 +1339,19 @@ def run_malformed(ctx, case, lines, ref_out, kinds, r):
     s = core.Script()
     s.raw("new a")
     s.raw("loaddb a " + os.path.join(ctx.db, "phreeqc.dat"))
+    s.raw("set a OutputStringOn 1")        # USER_PRINT only runs when something is printed
     s.run("a", text)
     s.raw("snap a ew")
-    s.run("a", BASE + "END\n")            # the instance must stay usable
-    run = core.run_vdrive(ctx.bin("asan"), s.bytes(), cwd, timeout=120)
-    san = core.sanitizer_findings(run)
+    # the instance must stay usable once the offending programs are replaced
+    s.run("a", BASE + "USER_PUNCH 1\n -headings ok\n -start\n 10 PUNCH 1\n -end\nUSER_PRINT\n -start\n 10 REM\n -end\nRATES\n c17rate\n -start\n 10 SAVE 0\n -end\nCALCULATE_VALUES\n c17cv\n -start\n 10 SAVE 0\n -end\nEND\n")
+    run = core.run_vdrive(ctx.bin("asan"), s.bytes(), cwd, timeout=40)
     sample = dict(id=case["id"], malformed=kind, host=host)
-    if san:
-        sample["input"] = text[-1500:]
-        return Result(VIOLATED, key="C17/%s" % san[0][0], what="%s (%s in %s): %s" % (case["id"], kind, host, san[0][1]), sample=sample)
     pf = core.process_failure(run)
     if pf:
-        if "timeout" in str(pf).lower() or "watchdog" in str(pf).lower():
-            return Result(INCONCLUSIVE, reason="watchdog")
+        if pf[0] in ("timeout", "harness"):
+            return Result(INCONCLUSIVE, reason="%s: %s" % (pf[0], (pf[2] or "")[:120]))
         sample["input"] = text[-1500:]
-        return Result(VIOLATED, key="C17/process/%s" % core.norm_reason(str(pf)) if hasattr(core, "norm_reason") else "C17/process-failure", what="%s (%s in %s): %s" % (case["id"], kind, host, pf), sample=sample)
+        return Result(VIOLATED, key="C17/%s" % pf[1], what="%s (%s in %s): process ended abnormally: %s" % (case["id"], kind, host, (pf[2] or "")[:2000]), sample=sample)
     rr_, sn = core.rets(run, "run"), core.rets(run, "snap")
     if len(rr_) < 2 or not sn:
         return Result(INCONCLUSIVE, reason="incomplete record")
